@@ -312,6 +312,13 @@ func (e *EventMon) NotifyJoin(n *memberlist.Node)   { e.handle("join", n) }
 func (e *EventMon) NotifyLeave(n *memberlist.Node)  { e.handle("leave", n) }
 func (e *EventMon) NotifyUpdate(n *memberlist.Node) { e.handle("update", n) }
 
+// EventsAbout is the number of events delivered about one member so far.
+func (e *EventMon) EventsAbout(name string) int {
+	e.mu.Lock()
+	defer e.mu.Unlock()
+	return len(e.perName[name])
+}
+
 func (e *EventMon) Log() []EvRec {
 	e.mu.Lock()
 	defer e.mu.Unlock()
@@ -556,6 +563,7 @@ type viewRec struct {
 	rank   int
 	addr   string
 	change time.Time // StateChange of the record
+	events int       // events delivered about the member up to this check
 }
 
 func (n *SimNode) ML() *memberlist.Memberlist { return n.M.Load() }
@@ -730,7 +738,11 @@ func (n *SimNode) CheckQuiescent() {
 			if isPlaceholder(r) {
 				continue
 			}
-			cur[r.Name] = viewRec{r.Incarnation, rankState(r.State), fmt.Sprintf("%x:%d", r.Addr, r.Port), r.StateChange}
+			ev := 0
+			if n.Ev != nil {
+				ev = n.Ev.EventsAbout(r.Name)
+			}
+			cur[r.Name] = viewRec{r.Incarnation, rankState(r.State), fmt.Sprintf("%x:%d", r.Addr, r.Port), r.StateChange, ev}
 		}
 		now := time.Now()
 		if !n.lastCheck.IsZero() && now.Sub(n.lastCheck) >= n.Conf.GossipToTheDeadTime {
@@ -739,7 +751,12 @@ func (n *SimNode) CheckQuiescent() {
 		n.lastCheck = now
 		for name, p := range n.lastView {
 			c, ok := cur[name]
-			if !ok || c.addr != p.addr || name == n.Name {
+			if !ok || c.addr != p.addr || name == n.Name || n.Ev == nil {
+				continue
+			}
+			if c.events-p.events > 1 {
+				// several membership transitions since the last check (e.g. the name left, was taken over from
+				// another address, left again and came back): the intermediate views are unknown
 				continue
 			}
 			back := c.inc < p.inc || (c.inc == p.inc && c.rank < p.rank)
